@@ -18,4 +18,10 @@ CHECKS = {
  "C19": {"technique": "reference-model monitor: real d/p/q/r helpers vs independent mpmath closed forms; same-seed call pairs",
          "text": "Every provided d/p/q helper of the nine families is evaluated on generated parameters/arguments (plain and log form) and compared with independently written 30-digit closed forms in R's rate parameterisation (CDFs by incomplete gamma/beta/erf or direct summation); q is judged as the inverse of the reference CDF (midpoint rule for discrete families); every seeded generator is called twice with the same integer seed while the global stream is perturbed. Exploration over sampled inputs.",
          "note": TB + " Empty stubs pnbinom/qnbinom/rnbinom are reported as not provided."},
+ "C01": {"technique": "reference-model monitor: pygom's symbolic reports and compiled evaluators vs an independent sympy re-derivation V.R+O from the model definition; native-compile counter on autowrap",
+         "text": "Hundreds (quick) to tens of thousands (thorough) of generated model definitions spanning the quantifier's shape classes, plus all catalogue models read back as data, are built through the real API; get_ode_eqn / state-change matrix / rate vector / pure-ODE vector / reactant matrix and the compiled ode, vMat, eventRateVector, pureOdeVector are compared entry by entry with a reference assembled from the definition without pygom code, and the identity ODE = V.R + O is checked on pygom's own outputs symbolically and numerically. Both compile back-ends (lambdify; autowrap/Cython with native compiles counted). Exploration.",
+         "note": TB + " Shape classes and native-compile counts are reported in the evidence; zero native compiles makes the cython lane inconclusive."},
+ "C03": {"technique": "reference-model monitor: symbolic derivatives of the independent reference in the documented layouts + Richardson finite differences of pygom's own ode/jacobian/grad",
+         "text": "For generated and catalogue models the reported and evaluated jacobian, grad, diff_jacobian, grad_jacobian, transitionJacobian, transitionMean and transitionVar are compared entry by entry (symbolically, numerically at random points, documented 2-D shapes) with derivatives of the independently assembled right-hand side and with the definitions (dR/dx)V, ((dR/dx)V)R, ((dR/dx)V)^2 R; a second oracle differentiates pygom's own evaluators numerically. Exploration.",
+         "note": TB},
 }
